@@ -567,6 +567,73 @@ def loopback_release_in_flight(n_late):
                         'PDU types %r, expected exactly one A-RELEASE-RQ' % (n_late, seen), case)
 
 
+def loopback_abort_while_sending(source, reason):
+    """The peer takes the first P-DATA-TF PDU of a large C-STORE, sends A-ABORT(source, reason), stops reading (it ran
+    out of resources) and closes a little later.  The abort was received by the requester's transport while the send
+    was still going on: it surfaces with its source and reason."""
+    import socket
+    import threading
+    import time
+    from pynetdicom2 import applicationentity, sopclass, exceptions, dimsemessages
+    from .. import refpdu, loopback as lb
+    case = {'kind': 'loopback', 'what': 'abort-while-sending', 'values': [source, reason], 'mode': 'large-store'}
+    CT = svc.CT_STORAGE
+    srv = socket.socket(socket.AF_INET, socket.SOCK_STREAM)
+    srv.setsockopt(socket.SOL_SOCKET, socket.SO_RCVBUF, 8192)
+    srv.bind(('127.0.0.1', 0))
+    srv.listen(1)
+    port = srv.getsockname()[1]
+    errors = []
+
+    def peer():
+        conn = None
+        try:
+            conn, _ = srv.accept()
+            conn.settimeout(10)
+            rq = refpdu.parse_pdu(_read_pdu(conn))
+            pcs = [it for it in rq['items'] if it['t'] == 0x20]
+            conn.sendall(refpdu.enc_pdu(fd.ac_spec([(it['id'], 0, svc.IMPLICIT) for it in pcs], 16384)))
+            _read_pdu(conn)
+            conn.sendall(refpdu.enc_pdu({'t': 7, 'r1': 0, 'r2': 0, 'r3': 0, 'source': source, 'reason': reason}))
+            time.sleep(2.0)         # (not reading any more)
+        except Exception as exc:      # noqa
+            errors.append(exc)
+        finally:
+            if conn is not None:
+                conn.close()
+            srv.close()
+    th = threading.Thread(target=peer, daemon=True)
+    th.start()
+    ae = applicationentity.ClientAE('CLI', [svc.IMPLICIT])
+    ae.timeout = 20
+    ae.add_scu(sopclass.storage_scu, [CT])
+    msg = dimsemessages.CStoreRQMessage()
+    msg.message_id = 1
+    msg.priority = 0
+    msg.sop_class_uid = CT
+    msg.affected_sop_instance_uid = '1.2.3.4'
+    msg.data_set = b'\0' * (24 << 20)
+    seen = None
+    try:
+        with ae.request_association({'aet': 'SRV', 'address': '127.0.0.1', 'port': port}) as assoc:
+            pc_id = assoc.sop_classes_as_scu[CT][0]
+            assoc.send(msg, pc_id)
+            assoc.receive()
+            seen = 'a response'
+    except exceptions.DCMTimeoutError:
+        raise lb.Inconclusive('library time-out')
+    except exceptions.AssociationAbortedError as exc:
+        seen = (exc.source, exc.reason_diag)
+    except Exception as exc:
+        seen = repr(exc)
+    th.join(10)
+    if errors:
+        raise lb.Inconclusive('scripted peer failed: %r' % (errors[0],))
+    if seen != (source, reason):
+        raise Violation('%s:loopback:abort-while-sending' % PROP, 'the peer aborted with (source %d, reason %d) after the first '
+                        'PDU of a 24 MiB C-STORE and stopped reading; the requester saw %r' % (source, reason, seen), case)
+
+
 def run_loopback(ctx, n_rounds):
     from .. import loopback as lb
     cases = [('abort', (2, 6), 'coalesced'), ('abort', (0, 0), 'coalesced'), ('abort', (2, 1), 'separate'),
@@ -582,6 +649,21 @@ def run_loopback(ctx, n_rounds):
                 ctx.inconclusive += 1
             except Violation as v:
                 ctx.fail(v.key, v.what, v.case)
+        try:
+            # (real sockets and real time: a mismatch must reproduce three times in a row before it is reported)
+            for attempt in range(3):
+                try:
+                    loopback_abort_while_sending(2, 6 if r % 2 == 0 else 1)
+                    break
+                except Violation:
+                    if attempt == 2:
+                        raise
+            ctx.case(('loopback', 'abort-while-sending', r), True, labels=['loopback-raw-peer', 'abort-while-sending'],
+                     sample={'loopback': 'abort-while-sending'})
+        except lb.Inconclusive:
+            ctx.inconclusive += 1
+        except Violation as v:
+            ctx.fail(v.key, v.what, v.case)
         for n_late in (0, 1, 3):
             try:
                 loopback_release_in_flight(n_late)
@@ -601,7 +683,7 @@ def run(ctx):
                 'or A-RELEASE-RQ arriving before any DIMSE exchange, between two exchanges, inside a half-consumed '
                 'C-FIND response stream and during a multi-fragment C-STORE; leaving request_association normally or '
                 'through 3 exception types / an exception raised while an SCU generator is half consumed; acceptor '
-                'side peer abort/release after 0-3 served requests; one long-lived entity answering 300-330 associations in a row (refused / served / aborted) each judged as if it were the first; 9 loopback cases with a raw-socket peer (incl. normal exit while responses are still in flight); non-trivial = non-default field values or an event '
+                'side peer abort/release after 0-3 served requests; one long-lived entity answering 300-330 associations in a row (refused / served / aborted) each judged as if it were the first; 10 loopback cases with a raw-socket peer (incl. normal exit while responses are still in flight, and an abort arriving while a 24 MiB C-STORE is being sent to a peer that stopped reading); non-trivial = non-default field values or an event '
                 'in mid-exchange')
     ctx.assumptions = ['provider replaced by vf/fakedul.py (the own handling by the provider of these PDUs is C04/C05)',
                        'a raw-socket scripted peer exercises the real requesting stack over loopback (A-ABORT coalesced with a response and '
@@ -683,6 +765,8 @@ def replay(case):
         try:
             if case['what'] == 'release-in-flight':
                 loopback_release_in_flight(case['values'][0])
+            elif case['what'] == 'abort-while-sending':
+                loopback_abort_while_sending(case['values'][0], case['values'][1])
             else:
                 loopback_case(case['what'], tuple(case['values']), case['mode'])
         except lb.Inconclusive as inc:
